@@ -19,7 +19,11 @@ import (
 	"verifharness/hx"
 
 	"github.com/alicebob/miniredis/v2"
+	goredis "github.com/go-redis/redis/v8"
+	"github.com/projecteru2/core/cluster/calcium"
+	enginefactory "github.com/projecteru2/core/engine/factory"
 	"github.com/projecteru2/core/lock"
+	redislock "github.com/projecteru2/core/lock/redis"
 	"github.com/projecteru2/core/store/etcdv3/embedded"
 	"github.com/projecteru2/core/store/etcdv3/meta"
 	redisstore "github.com/projecteru2/core/store/redis"
@@ -37,6 +41,11 @@ type kase struct {
 	ID      string         `json:"id"`
 	Backend string         `json:"backend"`
 	TTL     int            `json:"ttl_ms"`
+	Wait    int            `json:"wait_ms"` // redis only: wait timeout != lock TTL (lock/redis.New directly)
+	Kind    string         `json:"kind,omitempty"`   // "" = schedule on one key; "multikey" = loss of one of several locks held by with*Locked
+	Helper  string         `json:"helper,omitempty"` // multikey: pod | nodeop
+	NKeys   int            `json:"nkeys,omitempty"`
+	Lose    int            `json:"lose,omitempty"` // multikey: index (acquisition order) of the lock whose lease is revoked
 	Clients int            `json:"clients"`
 	Cmds    []cmd          `json:"cmds"`
 	Impl    map[string]any `json:"impl"`
@@ -61,6 +70,10 @@ type runner struct {
 	key     string
 	locks   map[int]lock.DistributedLock
 	ctxs    map[int]context.Context
+	kids    map[int]context.Context // a child of the lock context, as the cluster derives its working contexts
+	started map[int]time.Time       // when the client's Lock call began
+	rcli    *goredis.Client
+	cancels []context.CancelFunc
 	pending map[int]chan asyncRes
 	leases  map[int]clientv3.LeaseID
 	seen    map[clientv3.LeaseID]bool
@@ -103,7 +116,13 @@ func (r *runner) get(c int) (lock.DistributedLock, error) {
 	if l, ok := r.locks[c]; ok {
 		return l, nil
 	}
-	l, err := r.mk(r.key, time.Duration(r.k.TTL)*time.Millisecond)
+	var l lock.DistributedLock
+	var err error
+	if r.rcli != nil && r.k.Wait != r.k.TTL {
+		l, err = redislock.New(r.rcli, "/lock/"+r.key, time.Duration(r.k.Wait)*time.Millisecond, time.Duration(r.k.TTL)*time.Millisecond)
+	} else {
+		l, err = r.mk(r.key, time.Duration(r.k.TTL)*time.Millisecond)
+	}
 	if err == nil {
 		r.locks[c] = l
 	}
@@ -146,16 +165,45 @@ func (r *runner) learnLease(c int) {
 	}
 }
 
-func (r *runner) exec(c cmd) (res string, slow bool) {
+// waitFlag classifies how long a failed waiting Lock took against its wait timeout
+func (r *runner) waitFlag(c int, res string) string {
+	if res != "not-obtained" && res != "timeout" {
+		return ""
+	}
+	t0, ok := r.started[c]
+	if !ok {
+		return ""
+	}
+	wait := time.Duration(r.k.Wait) * time.Millisecond
+	el := time.Since(t0)
+	switch {
+	case el < wait*7/10:
+		return "early"
+	case el > wait+600*time.Millisecond:
+		r.timingOff = true // re-run before believing it
+		return "late"
+	}
+	return ""
+}
+
+func (r *runner) acquired(c int, rctx context.Context) {
+	r.ctxs[c] = rctx
+	kid, cancel := context.WithCancel(rctx)
+	r.kids[c] = kid
+	r.cancels = append(r.cancels, cancel)
+}
+
+func (r *runner) exec(c cmd) (res string, flag string) {
 	ctx := context.Background()
 	ttl := time.Duration(r.k.TTL) * time.Millisecond
 	switch c.Op {
 	case "lock", "trylock":
 		l, err := r.get(c.C)
 		if err != nil {
-			return "other:" + err.Error(), false
+			return "other:" + err.Error(), ""
 		}
 		t0 := time.Now()
+		r.started[c.C] = t0
 		var rctx context.Context
 		if c.Op == "lock" {
 			rctx, err = l.Lock(ctx)
@@ -163,17 +211,28 @@ func (r *runner) exec(c cmd) (res string, slow bool) {
 			rctx, err = l.TryLock(ctx)
 		}
 		if err == nil {
-			r.ctxs[c.C] = rctx
+			r.acquired(c.C, rctx)
 			r.learnLease(c.C)
 		}
-		return lockErr(err), c.Op == "trylock" && time.Since(t0) > 300*time.Millisecond
+		x := lockErr(err)
+		if r.mini != nil && x == "timeout" {
+			x = "not-obtained"
+		}
+		if c.Op == "trylock" {
+			if time.Since(t0) > 300*time.Millisecond {
+				return x, "slow"
+			}
+			return x, ""
+		}
+		return x, r.waitFlag(c.C, x)
 	case "lockasync":
 		l, err := r.get(c.C)
 		if err != nil {
-			return "other:" + err.Error(), false
+			return "other:" + err.Error(), ""
 		}
 		ch := make(chan asyncRes, 1)
 		r.asyncStart = time.Now()
+		r.started[c.C] = r.asyncStart
 		go func() {
 			rctx, err := l.Lock(ctx)
 			ch <- asyncRes{rctx, err}
@@ -181,75 +240,87 @@ func (r *runner) exec(c cmd) (res string, slow bool) {
 		select {
 		case a := <-ch:
 			if a.err == nil {
-				r.ctxs[c.C] = a.ctx
+				r.acquired(c.C, a.ctx)
 			}
 			r.learnLease(c.C)
-			return lockErr(a.err), false
+			x := lockErr(a.err)
+			if r.mini != nil && x == "timeout" {
+				x = "not-obtained"
+			}
+			return x, r.waitFlag(c.C, x)
 		case <-time.After(150 * time.Millisecond):
 			r.pending[c.C] = ch
 			r.learnLease(c.C)
-			return "blocked", false
+			return "blocked", ""
 		}
 	case "join":
 		ch, ok := r.pending[c.C]
 		if !ok {
 			if _, held := r.ctxs[c.C]; held {
-				return "acquired", false
+				return "acquired", ""
 			}
-			return "misuse", false
+			return "misuse", ""
 		}
 		delete(r.pending, c.C)
 		select {
 		case a := <-ch:
 			if a.err == nil {
-				r.ctxs[c.C] = a.ctx
+				r.acquired(c.C, a.ctx)
 			}
-			return lockErr(a.err), false
-		case <-time.After(ttl + 3*time.Second):
-			return "hang", false
+			x := lockErr(a.err)
+			if r.mini != nil && x == "timeout" {
+				x = "not-obtained"
+			}
+			return x, r.waitFlag(c.C, x)
+		case <-time.After(time.Duration(r.k.Wait)*time.Millisecond + 5*time.Second):
+			return "hang", ""
 		}
 	case "unlock":
 		l, ok := r.locks[c.C]
 		if !ok {
 			var err error
 			if l, err = r.get(c.C); err != nil {
-				return "other:" + err.Error(), false
+				return "other:" + err.Error(), ""
 			}
 		}
 		err := l.Unlock(ctx)
 		if r.mini != nil {
 			switch {
 			case err == nil:
-				return "released", false
+				return "released", ""
 			case strings.Contains(err.Error(), "lock not held"):
-				return "not-held", false
+				return "not-held", ""
 			}
-			return "other:" + err.Error(), false
+			return "other:" + err.Error(), ""
 		}
 		if err != nil {
-			return "other:" + err.Error(), false
+			return "other:" + err.Error(), ""
 		}
-		return "unlocked", false
+		return "unlocked", ""
 	case "ff":
 		r.mini.FastForward(time.Duration(c.Dt) * time.Millisecond)
-		return "advanced", false
+		return "advanced", ""
+	case "sleep":
+		time.Sleep(time.Duration(c.Dt) * time.Millisecond)
+		return "slept", ""
 	case "revoke":
 		id, ok := r.leases[c.C]
 		if !ok {
-			return "misuse", false
+			return "misuse", ""
 		}
 		rc, cancel := context.WithTimeout(ctx, 2*time.Second)
 		defer cancel()
 		if _, err := r.cli.Revoke(rc, id); err != nil {
-			return "other:" + err.Error(), false
+			return "other:" + err.Error(), ""
 		}
 		r.revoked[c.C] = time.Now()
-		return "revoked", false
+		return "revoked", ""
 	case "observe":
 		rctx, ok := r.ctxs[c.C]
 		if !ok {
-			return "ctx-none", false
+			return "ctx-none", ""
 		}
+		kid := r.kids[c.C]
 		// promptness bound: one keepalive interval (TTL/3) + the client's 500 ms keepalive scheduling
 		// granularity + slack; correctness: wait much longer before calling the context live
 		bound := ttl/3 + 500*time.Millisecond + 1500*time.Millisecond
@@ -260,31 +331,36 @@ func (r *runner) exec(c cmd) (res string, slow bool) {
 		if _, lost := r.revoked[c.C]; !lost {
 			wait = 150 * time.Millisecond
 		}
-		select {
-		case <-rctx.Done():
-		case <-time.After(wait):
+		// what the critical section sees: Done() of the lock context and of a context derived from it
+		// (Err() alone is not a signal: nobody polls it)
+		closed := func(x context.Context, d time.Duration) bool {
+			select {
+			case <-x.Done():
+				return true
+			case <-time.After(d):
+				return false
+			}
 		}
-		late := false
-		if t, ok := r.revoked[c.C]; ok && rctx.Err() != nil && time.Since(t) > bound {
-			late = true
+		if !closed(rctx, wait) || !closed(kid, 500*time.Millisecond) {
+			return "ctx-live", ""
+		}
+		flag := ""
+		if t, ok := r.revoked[c.C]; ok && time.Since(t) > bound {
+			flag = "slow"
 			r.timingOff = true
 		}
-		switch err := rctx.Err(); {
-		case err == nil:
-			return "ctx-live", late
-		case errors.Is(err, types.ErrLockSessionDone):
-			return "ctx-session-done", late
-		default:
-			return "ctx-cancelled", late
+		if errors.Is(rctx.Err(), types.ErrLockSessionDone) {
+			return "ctx-session-done", flag
 		}
+		return "ctx-cancelled", flag
 	}
-	return "misuse", false
+	return "misuse", ""
 }
 
 func (r *runner) run() {
 	res := []string{}
-	slow := []bool{}
-	kind, msg := hx.Guard(60*time.Second, func() {
+	flags := []string{}
+	kind, msg := hx.Guard(90*time.Second, func() {
 		for _, c := range r.k.Cmds {
 			r.checkLeases()
 			t0 := time.Now()
@@ -292,27 +368,25 @@ func (r *runner) run() {
 			el := time.Since(t0)
 			// a call that does not wait by design but took long, or that ran into a client-side
 			// deadline: the machine is too busy for this schedule's timing
-			nonBlocking := c.Op == "trylock" || c.Op == "unlock" || c.Op == "ff" || c.Op == "revoke" || (c.Op == "lock" && x == "acquired")
+			nonBlocking := c.Op == "trylock" || c.Op == "unlock" || c.Op == "ff" || c.Op == "revoke" || ((c.Op == "lock" || c.Op == "lockasync") && x == "acquired")
 			if (nonBlocking && el > 300*time.Millisecond) || strings.HasPrefix(x, "other:") {
 				r.timingOff = true
 			}
-			if r.mini != nil && len(r.pending) > 0 && c.Op != "lockasync" && time.Since(r.asyncStart) > 400*time.Millisecond {
+			if r.mini != nil && len(r.pending) > 0 && c.Op != "lockasync" && c.Op != "join" && time.Since(r.asyncStart) > 400*time.Millisecond {
 				r.timingOff = true
+			}
+			if r.mini == nil && len(r.pending) > 0 && c.Op != "lockasync" && c.Op != "join" && time.Since(r.asyncStart) > time.Duration(r.k.Wait-150)*time.Millisecond {
+				r.timingOff = true // the waiter's deadline came too close while the script was still acting
 			}
 			if c.Op == "unlock" {
 				r.unlocked[c.C] = true
 			}
 			r.checkLeases()
-			if r.mini != nil && x == "timeout" {
-				// redislock reports its wait deadline as ErrNotObtained or, when the retry timer and
-				// the deadline fire together, as the context error of the last SET NX: same outcome
-				x = "not-obtained"
-			}
 			res = append(res, x)
-			slow = append(slow, s)
+			flags = append(flags, s)
 		}
 	})
-	r.k.Impl = map[string]any{"res": res, "slow": slow}
+	r.k.Impl = map[string]any{"res": res, "flags": flags}
 	if r.perturbed {
 		r.k.Impl["perturbed"] = true
 	}
@@ -323,9 +397,12 @@ func (r *runner) run() {
 	for c, ch := range r.pending {
 		select {
 		case <-ch:
-		case <-time.After(time.Duration(r.k.TTL)*time.Millisecond + 2*time.Second):
+		case <-time.After(time.Duration(r.k.Wait)*time.Millisecond + 2*time.Second):
 		}
 		delete(r.pending, c)
+	}
+	for _, cancel := range r.cancels {
+		cancel()
 	}
 	for _, l := range r.locks {
 		ctx, cancel := context.WithTimeout(context.Background(), time.Second)
@@ -340,9 +417,13 @@ func (r *runner) run() {
 func gen(r *hx.Rng, backend string, loss bool, allowSlow bool) *kase {
 	k := &kase{Backend: backend, TTL: 1000, Cmds: []cmd{}}
 	if backend == "etcd" {
-		k.TTL = hx.Pick(r, 3000, 4000)
+		k.TTL = hx.Pick(r, 3000, 4000, 2700, 3400) // etcdlock.New uses the ttl as given for the wait timeout
 	} else {
 		k.TTL = hx.Pick(r, 1000, 1000, 2000)
+	}
+	k.Wait = k.TTL
+	if backend == "redis" && !loss && r.Chance(25) { // lock/redis.New with wait timeout != lock TTL
+		k.Wait = hx.Pick(r, k.TTL/2, k.TTL*2)
 	}
 	next := 0
 	fresh := func() int { next++; return next - 1 }
@@ -444,6 +525,9 @@ func gen(r *hx.Rng, backend string, loss bool, allowSlow bool) *kase {
 			}
 		case x < 84 && backend == "redis":
 			dt := hx.Pick(r, 100, k.TTL/2, k.TTL-1, k.TTL, k.TTL+1)
+			if k.Wait != k.TTL { // the instants at which a confusion of the two durations shows
+				dt = hx.Pick(r, k.Wait, k.Wait+1, k.TTL-1, k.TTL, k.TTL+1, k.Wait-1)
+			}
 			add("ff", 0, dt)
 			if dt >= k.TTL {
 				expired = true
@@ -457,6 +541,10 @@ func gen(r *hx.Rng, backend string, loss bool, allowSlow bool) *kase {
 				add("lockasync", w, 0)
 				switch r.Intn(4) {
 				case 0: // holder releases: waiter acquires
+					if backend == "etcd" && k.TTL%1000 != 0 && allowSlow {
+						// ... inside the last fraction of a second of the waiter's timeout
+						add("sleep", 0, fracSleep(k.TTL))
+					}
 					add("unlock", holder, 0)
 					add("join", w, 0)
 					holder, held, expired = w, true, false
@@ -503,17 +591,47 @@ func gen(r *hx.Rng, backend string, loss bool, allowSlow bool) *kase {
 	return k
 }
 
+// fracSleep: how long to sleep after a lockasync (which itself takes 150 ms) so that the next command
+// runs shortly after the last whole second of a fractional wait timeout and well before its end
+func fracSleep(ttl int) int {
+	frac := ttl % 1000
+	d := frac / 3
+	if d > 150 {
+		d = 150
+	}
+	return ttl/1000*1000 + d - 150
+}
+
 func corpus() []*kase {
+	burner := &kase{Backend: "redis", TTL: 4000, Wait: 4000, Clients: 9, Cmds: []cmd{{"lock", 0, 0}}}
+	for c := 1; c <= 8; c++ { // 8 waiters x 8 retry decisions: any process-wide retry budget below that shows in the next case
+		burner.Cmds = append(burner.Cmds, cmd{"lockasync", c, 0})
+	}
+	for c := 1; c <= 8; c++ {
+		burner.Cmds = append(burner.Cmds, cmd{"join", c, 0})
+	}
+	burner.Cmds = append(burner.Cmds, cmd{"unlock", 0, 0})
 	return []*kase{
+		burner,
+		{Backend: "redis", TTL: 2000, Wait: 2000, Clients: 2, Cmds: []cmd{{"lock", 0, 0}, {"lockasync", 1, 0}, {"unlock", 0, 0}, {"join", 1, 0}, {"unlock", 1, 0}}},
+		// wait timeout != lock TTL, both orders
+		{Backend: "redis", TTL: 2000, Wait: 1000, Clients: 3, Cmds: []cmd{{"lock", 0, 0}, {"ff", 0, 1000}, {"trylock", 1, 0}, {"ff", 0, 1000}, {"trylock", 2, 0}, {"unlock", 2, 0}}},
+		{Backend: "redis", TTL: 1000, Wait: 2000, Clients: 3, Cmds: []cmd{{"lock", 0, 0}, {"ff", 0, 1000}, {"trylock", 1, 0}, {"unlock", 1, 0}}},
+		// etcd wait timeouts with a fractional second: release inside the fraction; sub-second timeout
+		{Backend: "etcd", TTL: 2700, Wait: 2700, Clients: 2, Cmds: []cmd{{"lock", 0, 0}, {"lockasync", 1, 0}, {"sleep", 0, fracSleep(2700)}, {"unlock", 0, 0}, {"join", 1, 0}, {"unlock", 1, 0}}},
+		{Backend: "etcd", TTL: 300, Wait: 300, Clients: 2, Cmds: []cmd{{"lock", 0, 0}, {"lockasync", 1, 0}, {"join", 1, 0}, {"unlock", 0, 0}}},
 		// D15: redis holder is not told about TTL expiry while a second client acquires
-		{Backend: "redis", TTL: 1000, Clients: 2, Cmds: []cmd{{"lock", 0, 0}, {"lockasync", 1, 0}, {"ff", 0, 1000}, {"join", 1, 0}, {"observe", 0, 0}, {"unlock", 0, 0}, {"unlock", 1, 0}}},
-		{Backend: "redis", TTL: 1000, Clients: 3, Cmds: []cmd{{"lock", 0, 0}, {"trylock", 1, 0}, {"unlock", 0, 0}, {"trylock", 2, 0}, {"unlock", 2, 0}}},
-		{Backend: "etcd", TTL: 2000, Clients: 3, Cmds: []cmd{{"lock", 0, 0}, {"trylock", 1, 0}, {"lockasync", 2, 0}, {"unlock", 0, 0}, {"join", 2, 0}, {"unlock", 2, 0}}},
-		{Backend: "etcd", TTL: 2000, Clients: 2, Cmds: []cmd{{"lock", 0, 0}, {"lockasync", 1, 0}, {"revoke", 0, 0}, {"join", 1, 0}, {"observe", 0, 0}, {"observe", 1, 0}, {"unlock", 0, 0}, {"unlock", 1, 0}}},
+		{Backend: "redis", TTL: 1000, Wait: 1000, Clients: 2, Cmds: []cmd{{"lock", 0, 0}, {"lockasync", 1, 0}, {"ff", 0, 1000}, {"join", 1, 0}, {"observe", 0, 0}, {"unlock", 0, 0}, {"unlock", 1, 0}}},
+		{Backend: "redis", TTL: 1000, Wait: 1000, Clients: 3, Cmds: []cmd{{"lock", 0, 0}, {"trylock", 1, 0}, {"unlock", 0, 0}, {"trylock", 2, 0}, {"unlock", 2, 0}}},
+		{Backend: "etcd", TTL: 2000, Wait: 2000, Clients: 3, Cmds: []cmd{{"lock", 0, 0}, {"trylock", 1, 0}, {"lockasync", 2, 0}, {"unlock", 0, 0}, {"join", 2, 0}, {"unlock", 2, 0}}},
+		{Backend: "etcd", TTL: 2000, Wait: 2000, Clients: 2, Cmds: []cmd{{"lock", 0, 0}, {"lockasync", 1, 0}, {"revoke", 0, 0}, {"join", 1, 0}, {"observe", 0, 0}, {"observe", 1, 0}, {"unlock", 0, 0}, {"unlock", 1, 0}}},
 	}
 }
 
 func isLoss(k *kase) bool {
+	if k.Kind == "multikey" {
+		return true
+	}
 	for _, c := range k.Cmds {
 		if c.Op == "observe" || c.Op == "revoke" {
 			return true
@@ -540,6 +658,8 @@ func TestGen(t *testing.T) {
 	ecli := embedded.NewCluster(t, etcdPrefix).RandClient()
 
 	cases := []*kase{}
+	nFixed := 0
+	mk := &multiEnv{}
 	if rp := os.Getenv("VERIF_REPLAY"); rp != "" {
 		f, err := os.Open(rp)
 		if err != nil {
@@ -554,12 +674,20 @@ func TestGen(t *testing.T) {
 				cases = append(cases, k)
 			}
 		}
+		nFixed = len(cases)
 	} else {
 		for _, k := range corpus() {
 			if isLoss(k) == wantLoss {
 				cases = append(cases, k)
 			}
 		}
+		if wantLoss { // loss of one of several locks held by with*Locked (real Calcium, real etcd locks)
+			for i := 0; i < 6; i++ {
+				nk := 2 + i%2
+				cases = append(cases, &kase{Backend: "etcd", Kind: "multikey", Helper: []string{"pod", "nodeop"}[i/2%2], NKeys: nk, Lose: (i + i/3) % nk, TTL: 3000, Wait: 3000, Cmds: []cmd{}})
+			}
+		}
+		nFixed = len(cases)
 		etcdQuota := n / 8 // etcd schedules run in real time (lease granularity is seconds)
 		if etcdQuota < 4 {
 			etcdQuota = 4
@@ -587,6 +715,7 @@ func TestGen(t *testing.T) {
 	// one execution of a schedule; reports whether it should be re-run (environment perturbation)
 	runOnce := func(i int, k *kase, attempt int, last bool) bool {
 		rn := &runner{k: k, key: fmt.Sprintf("k%d_%d_%d", seed, i, attempt), locks: map[int]lock.DistributedLock{}, ctxs: map[int]context.Context{},
+			kids: map[int]context.Context{}, started: map[int]time.Time{},
 			pending: map[int]chan asyncRes{}, leases: map[int]clientv3.LeaseID{}, seen: map[clientv3.LeaseID]bool{}, revoked: map[int]time.Time{},
 			unlocked: map[int]bool{}}
 		if k.Backend == "redis" {
@@ -602,6 +731,8 @@ func TestGen(t *testing.T) {
 				return false
 			}
 			rn.mini, rn.mk = m, st.CreateLock
+			rn.rcli = goredis.NewClient(&goredis.Options{Addr: m.Addr()})
+			defer rn.rcli.Close()
 		} else {
 			rn.cli, rn.mk = ecli, etcd.CreateLock
 		}
@@ -621,6 +752,17 @@ func TestGen(t *testing.T) {
 	retry := []int{}
 	sem := make(chan struct{}, 8)
 	for i, k := range cases {
+		if k.Wait == 0 {
+			k.Wait = k.TTL
+		}
+		if i < nFixed { // the fixed corpus runs first, in order, alone (its cases build on each other)
+			if k.Kind == "multikey" {
+				runMultiKey(t, mk, k)
+			} else if runOnce(i, k, 0, false) && runOnce(i, k, 1, false) {
+				runOnce(i, k, 2, true)
+			}
+			continue
+		}
 		wg.Add(1)
 		sem <- struct{}{}
 		go func(i int, k *kase) {
@@ -641,5 +783,107 @@ func TestGen(t *testing.T) {
 	}
 	for _, k := range cases {
 		out.Emit(k)
+	}
+}
+
+// ---------------------------------------------------------------- several locks held at once (C19)
+type multiEnv struct {
+	cal *calcium.Calcium
+	n   int
+}
+
+// runMultiKey: with{NodesPod,NodesOperation}Locked over NKeys keys on real etcd locks; inside the
+// callback the lease of the Lose-th lock (acquisition order) is revoked and the callback's context
+// (and a child of it) is observed.
+func runMultiKey(t *testing.T, m *multiEnv, k *kase) {
+	ctx := context.Background()
+	if m.cal == nil {
+		cfg := types.Config{
+			LockTimeout: 3 * time.Second, GlobalTimeout: 30 * time.Second, MaxConcurrency: 1000,
+			WALFile: t.TempDir() + "/wal", ConnectionTimeout: 2 * time.Second,
+			Etcd:      types.EtcdConfig{Prefix: etcdPrefix, LockPrefix: etcdLockPrefix},
+			Scheduler: types.SchedulerConfig{MaxShare: -1, ShareBase: 100},
+		}
+		enginefactory.InitEngineCache(ctx, cfg, nil)
+		c, err := calcium.New(ctx, cfg, t)
+		if err != nil {
+			k.Impl = map[string]any{"setup": err.Error()}
+			return
+		}
+		m.cal = c
+	}
+	m.n++
+	st := m.cal.GetStore()
+	cli := embedded.NewCluster(t, etcdPrefix).RandClient()
+	names := []string{}
+	keys := []string{}
+	for i := 0; i < k.NKeys; i++ {
+		pod := fmt.Sprintf("mk%dp", m.n)
+		if k.Helper == "pod" {
+			pod = fmt.Sprintf("mk%dp%d", m.n, i)
+		}
+		node := fmt.Sprintf("mk%dn%d", m.n, i)
+		if i == 0 || k.Helper == "pod" {
+			if _, err := st.AddPod(ctx, pod, ""); err != nil {
+				k.Impl = map[string]any{"setup": err.Error()}
+				return
+			}
+		}
+		if _, err := st.AddNode(ctx, &types.AddNodeOptions{Nodename: node, Endpoint: "mock://" + node, Podname: pod}); err != nil {
+			k.Impl = map[string]any{"setup": err.Error()}
+			return
+		}
+		names = append(names, node)
+		if k.Helper == "pod" {
+			keys = append(keys, "plock_"+pod)
+		} else {
+			keys = append(keys, "cnode_op_"+pod+"_"+node)
+		}
+	}
+	res, flag := "not-run", ""
+	f := func(fctx context.Context, _ map[string]*types.Node) error {
+		kid, cancel := context.WithCancel(fctx)
+		defer cancel()
+		rc, rcancel := context.WithTimeout(ctx, 3*time.Second)
+		defer rcancel()
+		resp, err := cli.Get(rc, "/"+etcdLockPrefix+"/"+keys[k.Lose]+"/", clientv3.WithPrefix())
+		if err != nil || len(resp.Kvs) != 1 {
+			res = fmt.Sprintf("other:lease lookup %v %d", err, len(resp.Kvs))
+			return nil
+		}
+		if _, err := cli.Revoke(rc, clientv3.LeaseID(resp.Kvs[0].Lease)); err != nil {
+			res = "other:" + err.Error()
+			return nil
+		}
+		t0 := time.Now()
+		select {
+		case <-kid.Done():
+			res = "ctx-cancelled"
+			if errors.Is(fctx.Err(), types.ErrLockSessionDone) {
+				res = "ctx-session-done"
+			}
+			if time.Since(t0) > 3*time.Second {
+				flag = "slow"
+			}
+		case <-time.After(10 * time.Second):
+			res = "ctx-live"
+		}
+		return nil
+	}
+	nf := &types.NodeFilter{Includes: names, All: true}
+	var err error
+	kind, msg := hx.Guard(60*time.Second, func() {
+		if k.Helper == "pod" {
+			err = m.cal.VerifLockWithNodesPodLocked(ctx, nf, f)
+		} else {
+			err = m.cal.VerifLockWithNodesOperationLocked(ctx, nf, f)
+		}
+	})
+	k.Impl = map[string]any{"res": []string{res}, "flags": []string{flag}}
+	if err != nil {
+		k.Impl["err"] = err.Error()
+	}
+	if kind != "" {
+		k.Impl[kind] = msg
 	}
 }
